@@ -15,8 +15,10 @@ EXPLANATION = (
     "with IEEE double semantics and the float->int cast, so an inexact product would show) and compared with the "
     "constants of the statement (15 020 d, 2 400 000.5 d, 3 155 716 800 s, 1970-01-01 via the calendar oracle). Every "
     "float-valued accessor must be to_unit(u)/to_seconds() of such an exact duration with the right unit, and the "
-    "from_mjd/from_jde/from_unix constructors must use the mirrored constants (sibling agreement). The 'few ulps' "
-    "accuracy of to_seconds/to_unit and the float round trip are floating-point error bounds: not decided.")
+    "from_mjd/from_jde/from_unix constructors must use the mirrored constants (sibling agreement). R6: the 'few ulps' "
+    "accuracy of the float-valued accessors = the rounding-error bound of Duration::to_seconds / to_unit (C18.R6's static "
+    "error analysis, re-run here: |result - exact| <= 8u*max(|exact|, 1 s)) applied to those exact durations. The float "
+    "round trip (value -> epoch -> value) is not decided.")
 
 DAY = oracle.DAY_NS
 K_MJD = oracle.MJD_1900 * DAY
@@ -103,6 +105,8 @@ def r5_reference_constants(chk, F):
 
 def run(chk, F, tier):
     r5_reference_constants(chk, F)
+    from . import c18_out
+    c18_out.run_rule(chk, F, R=("C17.R6", None, None))
     eng, D = ctx(F)
     A = EpochAlg(F, eng, D)
     eng.max_steps = 40000
@@ -231,4 +235,4 @@ def run(chk, F, tier):
     eng.max_steps = 4000
     chk.extra["engine_stats"] = dict(eng.stats)
     chk.assumptions.append("conv(e, S) = Epoch::to_time_scale is uninterpreted (its correctness is C05/C06/C07)")
-    chk.assumptions.append("float accuracy (ulps) of to_seconds/to_unit and float round trips: not decided")
+    chk.assumptions.append("IEEE-754 binary64 round-to-nearest arithmetic (standard model) for the error bound R6; float round trips (value -> epoch -> value): not decided")
